@@ -19,7 +19,7 @@ from vmon.models import signals_ref
 PROPERTY = "C14"
 LEVEL = "exploration"
 SHARDS = {"quick": 8, "thorough": 16}
-BUDGET = {"quick": 20.0, "thorough": 420.0}
+BUDGET = {"quick": 25.0, "thorough": 420.0}
 REQUIRE = {
     "histories": 8000,
     "model:emit": 30000,
@@ -43,6 +43,7 @@ REQUIRE = {
     "model:kill_sender_dead": 500,
     "model:kill_dead_while_connected": 1000,
     "widget_triggers": 1000,
+    "constructor_callback_connections": 200,
     "widget_trigger_calls": 1000,
     "api:module": 5000,
     "api:fresh": 5000,
@@ -55,10 +56,11 @@ RULE = (
     "a case = one history (header: API flavour {module-level urwid.*_signal functions, fresh Signals()}, senders, weak pool; "
     "ops: connect(handler behaviour, weak_args, user_args, deprecated user_arg, callable style), reconnect duplicate, disconnect by "
     "args / by key / of something not connected, emit, widget trigger, kill object + gc.collect(), connect to unregistered name) "
-    "executed on the real code and judged offline; exhaustive core = 1..3 handlers (thorough: 4) on one signal x behaviour per "
+    "executed on the real code and judged offline; enumerated core = 1..3 handlers (thorough: 4) on one signal x behaviour per "
     "handler in {plain, returns true, disconnect self, disconnect earlier, disconnect later, connect new, emit recursively, kill "
     "earlier weak arg, kill later weak arg} x {by key, by args} x {module, fresh} x {weak args, none} x every prefix of <=2 ops "
-    "(quick: n=3 with <=1 op, n<=2 with <=2 ops) + final emit; random histories of 5..40 ops over 3 senders x 2 names incl. real "
+    "(quick: n=3 with <=1 op, n<=2 with <=2 ops; thorough adds n=4, its 2-op prefixes as far as 75% of the budget allows -- see "
+    "core_complete_in_budget) + final emit; random histories of 5..40 ops over 3 senders x 2 names incl. real "
     "widgets (Button click, CheckBox/Edit change+postchange, SimpleListWalker/SimpleFocusListWalker modified, walker inside a "
     "ListBox); distinct = distinct (header, ops) descriptors; non-trivial = at least one emit executed"
 )
@@ -140,6 +142,8 @@ WIDGET_KINDS = {
     "slw": ["modified"],
     "sflw": ["modified"],
     "slw_listbox": ["modified"],
+    "button_cb": ["click"],  # Button(on_press=..., user_data=...): the constructor connects through the deprecated user_arg
+    "checkbox_cb": ["change", "postchange"],  # CheckBox(on_state_change=..., user_data=...)
 }
 
 
@@ -238,6 +242,19 @@ class Session:
                 o = urwid.Button("b")
             elif k == "checkbox":
                 o = urwid.CheckBox("c", has_mixed=True)
+            elif k in ("button_cb", "checkbox_cb"):
+                name = "click" if k == "button_cb" else "change"
+                h = Handler(self, len(self.handlers), sid, name, None, [])
+                self.handlers.append(h)
+                if k == "button_cb":
+                    o = urwid.Button("b", on_press=h.func, user_data="ud")
+                else:
+                    o = urwid.CheckBox("c", has_mixed=True, on_state_change=h.func, user_data="ud")
+                cid = len(self.conns)
+                h.cids.append(cid)
+                self.conns.append({"cid": cid, "key": None, "h": h, "sid": sid, "name": name, "weak": [], "uargs": [], "uarg": "ud", "style": "func"})
+                self.events.append({"t": "connect", "cid": cid, "sid": sid, "name": name, "hid": h.hid, "weak": [], "uargs": [], "uarg": "ud", "exc": None})
+                self.cnt("constructor_callback_connections")
             elif k == "edit":
                 o = urwid.Edit("", "e0")
             elif k == "slw":
@@ -403,7 +420,7 @@ class Session:
 
     def op_disc_key(self, op, h):
         c = self.ref(op[1], h)
-        if c is None:
+        if c is None or c["key"] is None:
             return
         self._disc_key(c["sid"], c["name"], c["key"], c["cid"])
 
@@ -424,6 +441,8 @@ class Session:
             self._disc_args(c["sid"], c["name"], c["h"].callable(c["style"]), c["h"].hid, c["weak"], [*c["uargs"], "zz"], c["uarg"])
         elif kind == "no-weak":
             self._disc_args(c["sid"], c["name"], c["h"].callable(c["style"]), c["h"].hid, [], c["uargs"], c["uarg"])
+        elif kind == "other-signal-key" and c["key"] is None:
+            return
         elif kind == "other-signal-key":
             # the key of a connection used on (sid, name): only a hit when that is really its signal
             self._disc_key(sid, name, c["key"], c["cid"])
@@ -466,7 +485,7 @@ class Session:
 
         slots = None
         fn = None
-        if kind == "button":
+        if kind in ("button", "button_cb"):
             slots = [E("click", [me])]
             if how % 2:
                 fn = lambda: w.keypress((10,), "enter")  # noqa: E731
@@ -498,7 +517,7 @@ class Session:
                     w.edit_text = new
 
             slots = [E("change", [me, new]), E("postchange", [me, old])]
-        elif kind == "checkbox":
+        elif kind in ("checkbox", "checkbox_cb"):
             old = w.state
             m = how % 4
             if m == 3:
@@ -708,13 +727,13 @@ def core_prefix_universe(n, disc, weakpat):
     return u
 
 
-def core_cases(n, maxprefix):
-    """yield witnesses of the exhaustive core for n handlers"""
+def core_cases(n, maxprefix, minprefix=0):
+    """yield witnesses of the exhaustive core for n handlers with minprefix..maxprefix ops before the final emit"""
     for api, disc, weakpat in itertools.product(("module", "fresh"), ("disc_key", "disc_args"), (0, 1)):
         header = {"api": api, "senders": {"s0": {"kind": "plain", "names": ["a", "b"]}}, "nweak": n if weakpat else 0}
         uni = core_prefix_universe(n, disc, weakpat)
-        prefixes = [[]]
-        for d in range(1, maxprefix + 1):
+        prefixes = []
+        for d in range(minprefix, maxprefix + 1):
             prefixes += [list(p) for p in itertools.product(uni, repeat=d)]
         for combo in itertools.product(BEH, repeat=n):
             specs = [beh_spec(b, i, n, disc, weakpat) for i, b in enumerate(combo)]
@@ -888,10 +907,10 @@ def run(ctx):
     setup()
     idx = 0
     complete = {}
-    plan = ctx.pick([(1, 2), (2, 2), (3, 1)], [(1, 2), (2, 2), (3, 2), (4, 1)])
-    for n, maxprefix in plan:
+    plan = ctx.pick([(1, 2, 0), (2, 2, 0), (3, 1, 0)], [(1, 2, 0), (2, 2, 0), (3, 2, 0), (4, 1, 0), (4, 2, 2)])
+    for n, maxprefix, minprefix in plan:
         done = True
-        for wit in core_cases(n, maxprefix):
+        for wit in core_cases(n, maxprefix, minprefix):
             idx += 1
             if not ctx.mine(idx):
                 continue
@@ -902,7 +921,7 @@ def run(ctx):
             ctx.count("core_histories")
             if idx < 40 and n == 3:
                 ctx.sample(wit, limit=1)
-        complete[f"n={n},prefix<={maxprefix}"] = done
+        complete[f"n={n},prefix={minprefix}..{maxprefix}"] = done
     ctx.extra["core_complete_in_budget"] = complete
     rng = ctx.rng
     k = 0
